@@ -96,6 +96,8 @@ class Sequential(SubCheck):
         return st.fixed_dictionaries(
             {
                 'origin': st.sampled_from(['index', 'index', 'fanout', 'django']),
+                # the underlying cache's size limit is lowered below what it already occupies: an Index must not evict anyway
+                'pressure': st.booleans(),
                 'ops': st.lists(seq_ops(), min_size=1, max_size=40 if tier == 'quick' else 100),
             }
         )
@@ -117,6 +119,8 @@ class Sequential(SubCheck):
 
             holder = DjangoCache(path, {'SHARDS': 2})
             ix = holder.index('ix')
+        if case.get('pressure'):
+            ix.cache.reset('size_limit', 1)
         od = OrderedDict()
         extra = []
         kinds = set()
@@ -246,7 +250,7 @@ class Sequential(SubCheck):
                 if strict(got) != strict(want):
                     fail(name + '/contents', 'after %s: Index items %s, OrderedDict items %s' % (short(op), short(got, 300), short(want, 300)))
             nontrivial = len(kinds) >= 3 and (reassigned or persisted)
-            return {'nontrivial': nontrivial, 'classes': ['origin=' + origin] + (['persisted'] if persisted else [])}
+            return {'nontrivial': nontrivial, 'classes': ['origin=' + origin] + (['persisted'] if persisted else []) + (['size-pressure'] if case.get('pressure') else [])}
         finally:
             try:
                 ix.cache.close()
